@@ -301,7 +301,9 @@ def _closure_at(text, open_paren):
 def r6_option_combinators(text):
     """R6: Option combinators with a one-expression closure:
        X.map(|p| E).unwrap_or(D)  ->  match X { Some(p) => E, None => D }
-       X.and_then(|p| E)          ->  match X { Some(p) => E, None => None }"""
+       X.and_then(|p| E)          ->  match X { Some(p) => E, None => None }
+       X.is_some_and(|p| E)       ->  (match X { Some(p) => E, None => false })
+       X.is_none_or(|p| E)        ->  (match X { Some(p) => E, None => true })"""
     n = 0
     while True:
         m = re.search(r'\.\s*map\s*\(', text)
@@ -343,6 +345,23 @@ def r6_option_combinators(text):
             break
         if done:
             break
+    for (meth, dflt) in (('is_some_and', 'false'), ('is_none_or', 'true')):
+        while True:
+            done = True
+            for m in re.finditer(r'\.\s*' + meth + r'\s*\(', text):
+                cl = _closure_at(text, m.end() - 1)
+                if not cl:
+                    continue
+                pat, body, end = cl
+                rs = _receiver_start(text, m.start())
+                recv = text[rs:m.start()].strip()
+                new = '(match %s { Some(%s) => %s, None => %s })' % (recv, pat, body, dflt)
+                text = text[:rs] + new + text[end:]
+                n += 1
+                done = False
+                break
+            if done:
+                break
     return text, n
 
 
